@@ -251,6 +251,10 @@ def packet_stores(path, func=None):
 
 def check(ctx):
     repo = ctx.repo
+    # Round 6: the file-backed stand-in for bytes returns what the file returned, so that a short
+    # read stays visible as a short slice (C14-g)
+    from .c14 import check_file_backed_raw
+    check_file_backed_raw(ctx, rule='R4-file-backed-slice')
     strategies = unpack_strategies(repo)
     flows = 0
     funcs_with_flow = set()
